@@ -25,6 +25,11 @@ pub fn life_push(kind: &str, c: usize) {
         }
     });
 }
+thread_local! { static DIALS: std::cell::Cell<usize> = const { std::cell::Cell::new(0) }; }
+/// connections handed out so far by this thread's dialer
+pub fn dial_count() -> usize {
+    DIALS.with(|d| d.get())
+}
 pub fn life_take() -> Vec<Value> {
     LIFE.with(|l| l.borrow_mut().drain(..).map(|(k, c)| json!([k, c])).collect())
 }
@@ -313,6 +318,7 @@ impl Drop for Scripted {
 /// Install a dialer on this thread that hands out the world's connections in dial order.
 pub fn install_dialer(world: &Shared) {
     let world = world.clone();
+    DIALS.with(|d| d.set(0));
     attohttpc::verif::set_dialer(Some(Box::new(move |req| {
         let mut w = world.lock().unwrap();
         let ci = w.dialed;
@@ -327,6 +333,7 @@ pub fn install_dialer(world: &Shared) {
             return Some(Err(io::Error::new(io::ErrorKind::ConnectionRefused, "no scripted peer left")));
         }
         w.dialed += 1;
+        DIALS.with(|d| d.set(w.dialed));
         w.conns[ci].dial = Some((req.scheme.clone(), req.host.clone(), req.port));
         if let Some(kind) = w.conns[ci].script.refuse {
             life_push("n", 0);
